@@ -9,6 +9,9 @@ from vlib import common
 
 GO = dict(module="extras", pkg="sniff", pkgname="sniff",
           files={"zz_verif_c17_test.go": "c17/c17_test.go"}, run="TestVerifC17")
+GO_SRV = dict(module="core", pkg="internal/integration_tests", pkgname="integration_tests",
+              files={"zz_verif_c17s_test.go": "c17/c17_server_test.go"}, run="TestVerifC17Server")
+GO_ALL = [GO, GO_SRV]
 PARAMS_NAME = "ParamsC17"
 BASE_HEADER = ("From Hy Require Import lib.Harness model.C17_Sniff corr.C17_Corr.\nFrom Coq Require Import ZArith.\n"
                "Local Open Scope N_scope.\n")
@@ -91,13 +94,33 @@ def suite_samples():
         return []
 
 
-def add_stream(b, expr=None):
-    STREAMS.append((bytes(b), expr))
+def add_stream(b, expr=None, parts=None):
+    STREAMS.append((bytes(b), expr, parts))
     return len(STREAMS) - 1
 
 
+def sent_bytes(c):
+    """the bytes of a tcp case's stream: given as hex ("sent") or as pieces ("sentp", long streams)."""
+    if "sent" in c:
+        return bytes.fromhex(c["sent"])
+    out = b""
+    for q in c["sentp"]:
+        if q[0] == "l":
+            out += bytes.fromhex(q[1])
+        elif q[0] == "gd":
+            out += common.gen_data(q[1], q[2], q[3])
+        else:
+            out += bytes([q[1]]) * q[2]
+    return out
+
+
 def tcp(sid, evs, addr="1.2.3.4:80", dlfail=False):
-    return {"k": "tcp", "sid": sid, "sent": STREAMS[sid][0].hex(), "evs": [list(e) for e in evs], "addr": hx(addr), "dlfail": dlfail}
+    c = {"k": "tcp", "sid": sid, "evs": [list(e) for e in evs], "addr": hx(addr), "dlfail": dlfail, "sn": len(STREAMS[sid][0])}
+    if STREAMS[sid][2] is not None:
+        c["sentp"] = STREAMS[sid][2]
+    else:
+        c["sent"] = STREAMS[sid][0].hex()
+    return c
 
 
 def splits(n, cuts):
@@ -227,6 +250,217 @@ def gen_tcp(rng, tier):
             continue
         a = rng.choice([addr_for(k)] * 5 + ["[2001:db8::2]:443", "host.example:80", "bad"])
         cases.append(tcp(S[k], evs, a))
+    return cases
+
+
+def big_stream(parts):
+    """a long byte stream given as pieces: bytes (literal), ("gd", a, b, n) = gen_data a b n, ("rep", byte, n).
+    Returns the stream id; the Coq side gets an expression, never a long literal."""
+    bs, ex, js = b"", [], []
+    for q in parts:
+        if isinstance(q, (bytes, bytearray)):
+            if q:
+                bs += bytes(q)
+                ex.append(common.coq_bytes(q))
+                js.append(["l", bytes(q).hex()])
+        elif q[0] == "gd":
+            bs += common.gen_data(q[1], q[2], q[3])
+            ex.append("gen_data %d %d %d" % (q[1], q[2], q[3]))
+            js.append(["gd", q[1], q[2], q[3]])
+        else:
+            bs += bytes([q[1]]) * q[2]
+            ex.append("repeat x%02x (N.to_nat %d)" % (q[1], q[2]))
+            js.append(["rep", q[1], q[2]])
+    return add_stream(bs, "(" + " ++ ".join(ex or ["[]"]) + ")", js)
+
+
+def aperiodic(rng, n):
+    """n bytes as gen_data pieces of unequal lengths and different multipliers: no shift of the stream by a multiple of a
+    power of two maps it onto itself."""
+    parts, j = [], 0
+    while n > 0:
+        m = min(n, 331 + 97 * (j % 7))
+        parts.append(("gd", 2 * rng.randrange(1, 120) + 1, rng.randrange(256), m))
+        n -= m
+        j += 1
+    return parts
+
+
+def big_tls(rng, body_len, kind, trail):
+    """a TLS-looking first flight whose record body has exactly body_len bytes: kind 'ch' = ClientHello with a server name and
+    a padding extension that fills the record, 'nosni' = the same without server name, 'app' = 0x17 record of arbitrary bytes,
+    'lie' = a ClientHello of ordinary size whose record length field says body_len (the bytes behind it belong to the flow too).
+    trail: bytes sent after the record."""
+    if kind in ("ch", "nosni"):
+        sni = None if kind == "nosni" else "big%d.example" % rng.randrange(1000)
+        base = len(client_hello(rng, sni, pad=0))
+        pad = body_len - base - 4
+        if pad < 1:
+            return None
+        hs = client_hello(rng, sni, pad=pad)
+        assert len(hs) == body_len
+        head = hs[:len(hs) - pad]
+        parts = [record(b"", cl=body_len) + head] + aperiodic(rng, pad)
+    elif kind == "app":
+        parts = [record(b"", typ=0x17, ver=b"\x03\x03", cl=body_len)] + aperiodic(rng, body_len)
+    else:
+        hs = client_hello(rng, "lie%d.example" % rng.randrange(1000))
+        if body_len <= len(hs):
+            return None
+        parts = [record(hs, cl=body_len)] + aperiodic(rng, body_len - len(hs))
+    if trail:
+        parts += [record(b"\x01", typ=0x14, ver=b"\x03\x03")] + aperiodic(rng, trail)
+    return big_stream(parts)
+
+
+def big_http(rng, block_len, host_first, trail):
+    """an HTTP request whose header block (request line .. empty line) has exactly block_len bytes, made of header lines of
+    unequal lengths, Host in front or at the very end; trail: body bytes behind it."""
+    start = b"POST /upload HTTP/1.1\r\n"
+    host = b"Host: blk%d.example\r\n" % rng.randrange(1000)
+    end = b"\r\n"
+    fill = block_len - len(start) - len(host) - len(end)
+    if fill < 8:
+        return None
+    lines, j = [], 0
+    while fill > 0:
+        m = min(fill, 700 + 131 * (j % 5))
+        if fill - m < 8:
+            m = fill
+        name = b"X-%d: " % j
+        lines += [name, ("rep", 0x61 + j % 26, m - len(name) - 2), b"\r\n"]
+        fill -= m
+        j += 1
+    parts = [start] + ([host] + lines if host_first else lines + [host]) + [end]
+    if trail:
+        parts += aperiodic(rng, trail)
+    return big_stream(parts)
+
+
+def cut_scripts(rng, n, pos, e, shape):
+    """scripts in which the stream fails (e: 1 EOF, 2 deadline, 3 reset) when pos of its n bytes have been delivered; the
+    remaining bytes are late (never read by the sniffer: they stay on the stream)."""
+    pos = max(0, min(pos, n))
+    tail = [[n - pos, 0]] if n > pos else []
+    if shape == 0:            # the error comes with the last delivered bytes
+        return [[pos, e]] + tail
+    if shape == 1:            # everything delivered in one piece, then the error alone
+        return [[pos, 0], [0, e]] + tail
+    evs, left = [], pos       # delivered in segments (one size per script), then the error alone
+    seg = rng.choice([1460, 1024, 1000, 512, 4096, 1200, 16384])
+    while left > 0:
+        c = min(left, seg)
+        evs.append([c, 0])
+        left -= c
+    return evs + [[0, e]] + tail
+
+
+def gen_tcp_big(rng, tier):
+    """first flights LONGER than one read step of any buffering the sniffer might do: TLS records with bodies of
+    1023 .. 65535 bytes and HTTP header blocks around bufio's 4096, 32 KiB, 64 KiB and the 256 KiB limit, cut by a deadline /
+    EOF / reset just before, at and just after every multiple of 1024 (TLS) / 4096 (HTTP) of the body, in the middle of a
+    step, at the last byte of the record / header block and just behind it; delivered whole, in segments, byte-exact."""
+    thorough = tier != "quick"
+    cases = []
+    # ---- TLS
+    lens = [1023, 1024, 1025, 1500, 2047, 2048, 2049, 3040, 4096, 4101, 8192, 16384, 16385, 20000, 32768, 32775, 65535]
+    streams = []
+    for L in lens:
+        kinds = ["ch", "nosni", "app", "lie"] if thorough else [rng.choice(["ch", "ch", "nosni", "app", "lie"])]
+        if not thorough and L in (1500, 3040):
+            kinds = ["ch", "app"]
+        for kind in kinds:
+            trail = rng.choice([0, 0, 1, 300, 2000])
+            sid = big_tls(rng, L, kind, trail)
+            if sid is not None:
+                streams.append((sid, L, 5))
+    for sid, L, h in streams:
+        n = len(STREAMS[sid][0])
+        cases.append(tcp(sid, [[n, 0]], "1.2.3.4:443"))
+        cases.append(tcp(sid, cut_scripts(rng, n, n, 0, 2)[:-1] or [[n, 0]], "1.2.3.4:443"))
+        pts = set()
+        for k in range(0, L // 1024 + 2):
+            for d in (-1, 0, 1):
+                pts.add(h + 1024 * k + d)
+            pts.add(h + 1024 * k + rng.randrange(2, 1023))
+        for d in (-2, -1, 0, 1):
+            pts.add(h + L + d)
+        pts.update([3, 4, 5, 6, n - 1, n])
+        pts = sorted(q for q in pts if 0 <= q <= n)
+        body = [q for q in pts if h + 1024 < q < h + L]          # at least one full KiB of the body delivered, record incomplete
+        if thorough:
+            chosen = pts if L <= 8192 else sorted(set(rng.sample(pts, 48) + body[:4] + body[-4:]))
+            combos = [(q, e, rng.choice([0, 1, 2])) for q in chosen for e in (1, 2, 3)] + [(q, 2, rng.choice([0, 1, 2])) for q in chosen]
+        else:
+            chosen = rng.sample(pts, min(len(pts), 5)) + (rng.sample(body, min(len(body), 4)) if body else [])
+            combos = [(q, rng.choice([2, 2, 2, 1, 3]), rng.choice([0, 1, 2])) for q in chosen]
+        for q, e, sh in combos:
+            cases.append(tcp(sid, cut_scripts(rng, n, q, e, sh), rng.choice(["1.2.3.4:443"] * 4 + ["[::1]:8443", "noport"])))
+    # ---- HTTP
+    blocks = [4094, 4096, 4097, 4099, 8192, 8195, 12290, 32768, 32771, 65536, 65541, 131072]
+    near_limit = [262143, 262144, 262145, 262147] if thorough else [rng.choice([262143, 262144]), rng.choice([262145, 262147])]
+    hstreams = []
+    for B in blocks + near_limit:
+        for host_first in ((True, False) if thorough else (rng.random() < 0.5,)):
+            sid = big_http(rng, B, host_first, rng.choice([0, 11, 5000]))
+            if sid is not None:
+                hstreams.append((sid, B))
+    for sid, B in hstreams:
+        n = len(STREAMS[sid][0])
+        cases.append(tcp(sid, [[n, 0]], "1.2.3.4:80"))
+        pts = set()
+        for k in range(0, min(B, 262144) // 4096 + 2):
+            for d in (-1, 0, 1):
+                pts.add(4096 * k + d)
+            pts.add(4096 * k + rng.randrange(2, 4095))
+        for d in (-5, -4, -3, -2, -1, 0, 1):
+            pts.add(B + d)
+        pts.update([n - 1, n, 262144 - 1, 262144, 262144 + 1])
+        pts = sorted(q for q in pts if 0 <= q <= n)
+        if thorough:
+            chosen = pts if B <= 12290 else rng.sample(pts, min(len(pts), 30))
+            combos = [(q, e, rng.choice([0, 1, 2])) for q in chosen for e in (1, 2, 3)] + [(q, 2, rng.choice([0, 1, 2])) for q in chosen]
+        else:
+            chosen = rng.sample(pts, min(len(pts), 5 if B < 200000 else 3))
+            combos = [(q, rng.choice([2, 2, 1, 3]), rng.choice([0, 1, 2])) for q in chosen]
+        for q, e, sh in combos:
+            cases.append(tcp(sid, cut_scripts(rng, n, q, e, sh), rng.choice(["1.2.3.4:80"] * 4 + ["web.example:8080", "noport"])))
+    return cases
+
+
+def gen_srv(rng, tier):
+    """the SERVER side of the clause (core/server handleTCPRequest + copy.go): a hook that takes `put` bytes off the stream
+    and hands them back, put = 0 .. beyond the sniffer's 256 KiB HTTP limit with the sizes around the 32 KiB copy buffer,
+    64 KiB (+5: a full TLS record) and 256 KiB, x rest of the stream (nothing, 1 byte, less / more than a copy buffer) x
+    traffic logger on/off x fast open on/off x client write sizes x address rewrite x slow dial x data flowing down."""
+    thorough = tier != "quick"
+    puts = [0, 1, 5, 517, 4096, 16384, 32767, 32768, 32769, 40000, 65535, 65536, 65541, 70000, 98304, 131073, 262144, 262144 + 4096]
+    rests = [0, 1, 1000, 32768, 50000]
+    combos = []
+    for put in puts:
+        for logger in (True, False):
+            for fo in (False, True):
+                if thorough:
+                    for rest in rests:
+                        combos.append((put, rest, logger, fo))
+                else:
+                    combos.append((put, rng.choice(rests), logger, fo))
+    if not thorough:
+        # every putback size with a logger (2 of the 4 combinations), a sample of the others
+        keep = [x for x in combos if x[2] and (x[3] or rng.random() < 0.5)]
+        others = [x for x in combos if x not in keep]
+        rng.shuffle(others)
+        combos = keep + others[:10]
+    for _ in range(8 if not thorough else 200):
+        combos.append((rng.randrange(0, 300000), rng.randrange(0, 70000), rng.random() < 0.6, rng.random() < 0.5))
+    cases = []
+    for put, rest, logger, fo in combos:
+        if put + rest == 0:
+            rest = 1
+        parts = [["gd", q[1], q[2], q[3]] for q in aperiodic(rng, put + rest)]
+        cases.append({"k": "srv", "logger": logger, "fastopen": fo, "put": put, "sn": put + rest, "sentp": parts,
+                      "chunk": rng.choice([0, 0, 1200, 4096, 16384, 65536, 100000]), "rw": rng.random() < 0.5,
+                      "dial_delay": rng.choice([0, 0, 0, 30]), "down": rng.choice([0, 0, 0, 700, 40000])})
     return cases
 
 
@@ -538,9 +772,9 @@ def gen_check(rng, tier):
 def gen(rng, tier):
     global HEADER
     del STREAMS[:]
-    cases = gen_tcp(rng, tier) + gen_udp(rng, tier) + gen_check(rng, tier) + gen_tcpseq(rng, tier)
+    cases = gen_tcp(rng, tier) + gen_tcp_big(rng, tier) + gen_udp(rng, tier) + gen_check(rng, tier) + gen_tcpseq(rng, tier) + gen_srv(rng, tier)
     defs = []
-    for i, (b, expr) in enumerate(STREAMS):
+    for i, (b, expr, _) in enumerate(STREAMS):
         defs.append("Definition S%d : list byte := %s." % (i, expr if expr else common.coq_bytes(b)))
     HEADER = BASE_HEADER + "\n".join(defs) + "\n"
     return cases
@@ -567,9 +801,16 @@ def to_coq(c, o):
         if len(its) != len(c["items"]):
             return None
         return "CSeq [%s]" % ";".join(to_coq(ci, oi) for ci, oi in zip(c["items"], its))
+    if k == "srv":
+        if o.get("skip") or o.get("panic") or not o.get("torn") or "gotdg" not in o:
+            return None
+        sent = "(" + " ++ ".join("gen_data %d %d %d" % (q[1], q[2], q[3]) for q in c["sentp"]) + ")"
+        nl = lambda l: "[" + ";".join(str(x) for x in (l or [])) + "]"
+        return "CSrv %s %s %d %s %s %d %d %s" % (bl(c["logger"]), sent, c["put"], nl(o.get("writes")), nl(o.get("uplogs")),
+                                                 o.get("stx", 0), o["got"], "None" if o.get("gotpfx") else "(Some %d)" % o["gotdg"])
     if k == "tcp":
         s = "S%d" % c["sid"]
-        n = len(c["sent"]) // 2
+        n = c["sn"]
         evs = "[" + ";".join("(%d,%d)" % (l, e) for l, e in c["evs"]) + "]"
         if o.get("panic"):
             return "CTcp %s %s %s %s [] None None true [] [] [] false" % (s, evs, cb(bytes.fromhex(c["addr"])), bl(c["dlfail"]))
@@ -634,7 +875,7 @@ def to_coq(c, o):
 
 
 def proto(c):
-    b = bytes.fromhex(c["sent"])[:3]
+    b = (bytes.fromhex(c["sentp"][0][1]) if "sentp" in c and c["sentp"] and c["sentp"][0][0] == "l" else sent_bytes(c))[:3]
     if len(b) < 3:
         return "short"
     if all((65 <= x <= 90) or (97 <= x <= 122) for x in b):
@@ -648,6 +889,10 @@ def klass(c, o):
     k = c["k"]
     if o.get("panic") or o.get("pl_panic") or o.get("hdr_panic"):
         return k + ":panic"
+    if k == "srv":
+        size = "none" if c["put"] == 0 else "<=copybuf" if c["put"] <= 32768 else "<=64K+5" if c["put"] <= 65541 else ">64K"
+        return "srv:%s:%s:putback-%s%s" % ("logger" if c["logger"] else "fastpath", "fastopen" if c["fastopen"] else "eager", size,
+                                          ":skipped" if o.get("skip") else "")
     if k == "tcpseq":
         n = len(c["items"])
         return "tcpseq:%s:%s" % ("concurrent" if c["conc"] else "interleaved", "2" if n == 2 else "3+")
@@ -667,6 +912,8 @@ def klass(c, o):
 
 def nontrivial(c, o):
     k = c["k"]
+    if k == "srv":
+        return bool(o.get("torn")) and not o.get("skip") and c["put"] > 0
     if k == "tcpseq":
         return sum(1 for oi in (o.get("items") or []) if not oi.get("panic") and oi.get("rn", 0) >= 3) >= 2
     if k == "tcp":
@@ -692,7 +939,7 @@ def search(ctx, disagreeing):
     for s in range(2):
         rng = random.Random(ctx.seed * 1000 + s + 17)
         cases = gen(rng, "quick")
-        ok, outs, _, log = common.run_go_cases(ctx, GO, cases, tag="search%d" % s)
+        ok, outs, _, log = run_go_routed(ctx, GO, cases, tag="search%d" % s)
         for c, o in zip(cases, outs):
             if o.get("ok") is False:
                 cc = dict(c)
@@ -701,6 +948,46 @@ def search(ctx, disagreeing):
         if found:
             break
     return found
+
+
+def run_go_routed(ctx, gospec, cases, tag="main", timeout=900, race=False, orig=None):
+    """cases of kind "srv" go to core/internal/integration_tests (GO_SRV), everything else to extras/sniff (GO); both
+    packages run at the same time, outputs are merged back in case order."""
+    orig = orig or common.run_go_cases
+    if gospec is not GO:
+        return orig(ctx, gospec, cases, tag=tag, timeout=timeout, race=race)
+    ia = [i for i, c in enumerate(cases) if c.get("k") != "srv"]
+    ib = [i for i, c in enumerate(cases) if c.get("k") == "srv"]
+    if not ib:
+        return orig(ctx, GO, cases, tag=tag, timeout=timeout, race=race)
+    import threading
+    rb = {}
+
+    def run_b():
+        rb["r"] = orig(ctx, GO_SRV, [cases[i] for i in ib], tag=tag + "_srv", timeout=timeout, race=race)
+    th = threading.Thread(target=run_b)
+    th.start()
+    ok1, o1, params, log1 = (True, [], None, "")
+    if ia:
+        ok1, o1, params, log1 = orig(ctx, GO, [cases[i] for i in ia], tag=tag, timeout=timeout, race=race)
+    th.join()
+    ok2, o2, _, log2 = rb.get("r", (False, [], None, "server-side harness did not run"))
+    outs = [None] * len(cases)
+    if len(o1) == len(ia):
+        if len(o2) != len(ib):
+            # the server-side harness did not finish (reported as a broken tie through ok2): keep the other outputs
+            ok2 = False
+            o2 = list(o2) + [{"k": "srv", "ok": True, "why": "", "skip": "server-side harness did not finish"}] * (len(ib) - len(o2))
+        for i, o in zip(ia, o1):
+            outs[i] = o
+        for i, o in zip(ib, o2):
+            outs[i] = o
+    else:
+        outs = []
+    skipped = [o for o in o2 if o.get("skip")]
+    if skipped:
+        ctx.say("server side: %d of %d end-to-end cases skipped for infrastructure reasons: %s" % (len(skipped), len(o2), skipped[0]["skip"]))
+    return ok1 and ok2, outs, params, log1 + ("\n[core/internal/integration_tests] " + log2[-2500:] if not ok2 else "")
 
 
 def run(ctx):
@@ -725,10 +1012,16 @@ def run(ctx):
     def fin(ctx_, pinfo, cov, violations, *a, **kw):
         return orig(ctx_, pinfo, cov, list(violations) + extra, *a, **kw)
     common.finish = fin
+    orig_go = common.run_go_cases
+
+    def routed(ctx_, gospec, cases, tag="main", timeout=900, race=False):
+        return run_go_routed(ctx_, gospec, cases, tag=tag, timeout=timeout, race=race, orig=orig_go)
+    common.run_go_cases = routed
     try:
         return common.run_case_check(ctx, sys.modules[__name__])
     finally:
         common.finish = orig
+        common.run_go_cases = orig_go
 
 
 def replay(ctx, path):
@@ -738,7 +1031,7 @@ def replay(ctx, path):
     if not c:
         print("replay file names a broken obligation/correspondence, no concrete input:", r["what"])
         return 1
-    ok, outs, _, log = common.run_go_cases(ctx, GO, [c], tag="replay")
+    ok, outs, _, log = common.run_go_cases(ctx, GO_SRV if c.get("k") == "srv" else GO, [c], tag="replay")
     print(json.dumps(outs, indent=1))
     return 0 if outs and outs[0].get("ok") else 1
 
